@@ -1394,9 +1394,12 @@ impl<'a, 'b, W: Write> Serializer for &'a mut YamlSerializer<'b, W> {
             // If we are a value following a block sibling, force a newline now.
             // However, if a complex-node anchor is pending, we must keep `key: &aN` inline;
             // `write_anchor_for_complex_node` will handle emitting the anchor and newline.
+            // A sequence known to be empty stays inline as `key: []` (on a line of its own it would
+            // sit at the key's column with compact_list_indent, which is not valid YAML).
             if self.pending_space_after_colon
                 && self.last_value_was_block
                 && self.pending_anchor_id.is_none()
+                && _len != Some(0)
             {
                 self.pending_space_after_colon = false;
                 if !self.at_line_start {
